@@ -9,7 +9,8 @@ TRACE_CFG = "MarkTrace.cfg"
 RULE = ("random fonts with bases, marks, ligatures (Latin, optionally Arabic, or Devanagari triggering abvm/blwm), anchors "
         "from {top, bottom, ogonek, top.alt, center} as base / '_'-prefixed / numbered ligature / NULL component anchors, "
         "several per glyph, fractional coordinates with ties, mark-to-mark anchors, unpaired classes, with or without "
-        "public.openTypeCategories, GSUB alternates, languagesystems, groupMarkClasses on/off, quantisation {1,5}; one case in five hands the same writer instance to further fonts; TLC "
+        "public.openTypeCategories, GSUB alternates, languagesystems, groupMarkClasses on/off, quantisation {1,5}; one case in five hands the same writer instance to further fonts; plus variable anchors of 2-3 master families read back at "
+        "every master location; TLC "
         "evaluates EVERY (language system, kind, anchor bearer, component, mark) item on the compiled GPOS; non-trivial = "
         "the font has at least one item with a non-empty candidate set; distinct by source digest")
 ASSUMPTIONS = ["OpenType semantics: within a lookup the first subtable covering both glyphs applies, across lookups the last applying one wins",
@@ -36,10 +37,28 @@ def cases(tier, seed):
                 d.update({"cid": f"c06-{seed}-{k}+{j + 1}", "lib": c["lib"], "writers": ["mark"], "q": c.get("q", 1), "markOpts": c.get("markOpts")})
                 c["then"].append(d)
         out.append(c)
+    # variable anchors: 2-3 master families (also with values that agree in the first- and last-listed source and differ in
+    # between), read back at every master location
+    from .. import gen
+
+    for k in range(6 if tier == "quick" else 80):
+        out.append({"cid": f"c06-{seed}-v{k}", "var": True, "lib": rng.choice(["ufoLib2", "defcon"]),
+                    "fam": gen.rich_family(rng, n_masters=3 if k % 3 else 2), "flavor": rng.choice(["tt", "cff2"]),
+                    "varFeatures": True, "prodNames": False})
     return out
 
 
 def execute(case):
+    if case.get("var"):
+        from . import c10
+
+        recs = []
+        for r in c10.execute(case):
+            if r.get("_acc") == "mark":
+                recs.append({k: v for k, v in r.items() if k != "_acc"})
+            elif r.get("err"):
+                raise RuntimeError("variable compile failed: " + r["err"])
+        return recs
     recs = []
     for c, f2, fea in layout_exec.compile_sequence(case):
         rec = layout_exec.mark_record(c, f2, c["cid"])
